@@ -16,4 +16,25 @@ Example C12_example :
   map d_final (dtasks s) = [Some (OExc (EUser 0 SWorker))] /\ length (t_running s) = 1.
 Proof. vm_compute. repeat split; reflexivity. Qed.
 
+(** Non-interference (a two-run property): a run in which workers and callbacks raise is, up to
+    the failures themselves, the same run as the one in which nothing raises — same enabledness,
+    control points, counters, is_full, is_locked, pool_size, ready queue, results and group ids
+    after every label.  Stated for runs whose flush()/gather_and_close() calls use
+    return_exceptions=True (with False the call itself raises and then forgets nothing — that is
+    C12's own text — witness PNonInt.re_only_needed) and under P-self (witness
+    PNonInt.taint_self_dependence: open finding D11). *)
+From TP Require PNonInt PNonInt_def PObs.
+Theorem C12_noninterference : forall c tr,
+  Forall PNonInt_def.re_only tr -> clean (run c tr) -> taint_self (run c tr) = false ->
+  PNonInt_def.erase_state (run c tr) = run (PNonInt_def.erase_cfg c) (map PNonInt_def.erase_label tr).
+Proof. exact PNonInt.C12_noninterference. Qed.
+
+Theorem C12_same_observations : forall c tr,
+  Forall PNonInt_def.re_only tr -> clean (run c tr) -> taint_self (run c tr) = false ->
+  map PNonInt_def.erase_obs (PObs.observe c tr)
+  = PObs.observe (PNonInt_def.erase_cfg c) (map PNonInt_def.erase_label tr).
+Proof. exact PNonInt.C12_same_observations. Qed.
+
 Print Assumptions C12.
+Print Assumptions C12_noninterference.
+Print Assumptions C12_same_observations.
